@@ -42,6 +42,7 @@ func genC14(t *rapid.T) C14Case {
 		cfg.Globals = []string{"abG1", "abG2", "abgfun", "Gother"}
 		cfg.Builtins = builtinNames
 		cfg.MaxStats = 12
+		cfg.GQualified = true // some globals are defined / read as _G.name
 		cfg.NoFuncInForBounds = gate("c05-func-in-for-bounds")
 		cfg.NoFuncInTargetIndex = gate("c05-func-in-target")
 		toksPerFile = append(toksPerFile, luagen.Program(t, cfg))
@@ -199,6 +200,21 @@ func checkC14(c C14Case, env *Env) *Violation {
 		if strings.HasPrefix(n, c.Prefix) {
 			globals[n] = true
 		}
+	}
+	for _, fb := range a.bind {
+		if fb == nil {
+			continue
+		}
+		for n := range fb.GFieldWrites {
+			// `_G.name = v` / `function _G.name()` define the global too
+			if strings.HasPrefix(n, c.Prefix) {
+				globals[n] = true
+			}
+		}
+	}
+	for n := range globals {
+		// `_G.name = v` can make a global of a name that is also a (currently invisible) local
+		delete(invisible, n)
 	}
 	line, ch := refmodel.PosOf(f.Text, c.Cursor)
 	req := &proto.Request{Cmd: "session", Files: c.WS.protoFiles(), InitOptions: harness.J(harness.Flags(1))}
